@@ -66,6 +66,9 @@ pub struct Opts {
 	/// a second `Record` attribute
 	pub dup_record: bool,
 	pub rich: bool,
+	/// no class-level attribute at all (`attributes_count = 0`): the file ends with the methods, and a reader that declines
+	/// the class finishes on a plain two-byte read, not on a seek
+	pub bare: bool,
 }
 
 struct Asm<'a> { pool: Pool, r: &'a mut Rng, opts: Opts, stats: Vec<String> }
@@ -410,6 +413,7 @@ impl Asm<'_> {
 	}
 
 	fn class_attrs(&mut self, out: &mut Vec<u8>) {
+		if self.opts.bare { p2(out, 0); self.hit("class:no-attributes"); return; }
 		let mut items: Vec<usize> = Vec::new();
 		for k in 0..12 { if self.r.chance(if self.opts.rich { 1 } else { 1 }, if self.opts.rich { 2 } else { 4 }) { items.push(k); } }
 		if self.opts.dup_record { items.push(9); items.push(9); }
